@@ -96,7 +96,9 @@ def run(ctx):
 
 
 # sensitivity pack (thorough tier): each seeded edit must be reported by the named rule instance
-MUTANTS = [{'name': 'sat-handler-checks-unbound-only', 'file': 'src/subcommand/server.rs', 'old': '        if Index::is_special_outpoint(satpoint.outpoint) {\n          None\n        } else {\n          let tx = index', 'new': '        if satpoint.outpoint == unbound_outpoint() {\n          None\n        } else {\n          let tx = index', 'expect': ('R18.1', 'Server::sat', 'excludes unbound and lost')}]
+MUTANTS = [
+  {'name': 'seeded-C18-a', 'patch': 'C18-a/patch.diff', 'expect': ('R18.3', 'inscriptions_in_block_paginated', 'strict')},
+{'name': 'sat-handler-checks-unbound-only', 'file': 'src/subcommand/server.rs', 'old': '        if Index::is_special_outpoint(satpoint.outpoint) {\n          None\n        } else {\n          let tx = index', 'new': '        if satpoint.outpoint == unbound_outpoint() {\n          None\n        } else {\n          let tx = index', 'expect': ('R18.1', 'Server::sat', 'excludes unbound and lost')}]
 
 
 # behaviour-preserving edits (thorough tier): the rules must stay silent on every one of them
